@@ -490,7 +490,24 @@ func (fc *FCtx) run() {
 			return true
 		})
 	}
+	// a generic function is verified once, over its type parameters (opaque sorts): their names resolve to themselves
+	if tps := fi.Sig.TypeParams(); tps != nil && tps.Len() > 0 {
+		fc.typeArgs = map[string]types.Type{}
+		for i := 0; i < tps.Len(); i++ {
+			fc.typeArgs[tps.At(i).Obj().Name()] = tps.At(i)
+		}
+	}
 	bodyPos := fi.Body().Lbrace + 1
+	// `//@ forwards <callee>`: the function returns exactly what its one call of <callee> returned. Bookkeeping ghosts
+	// (their names contain "@": outside every frame): the number of calls made so far and the results of the last one.
+	if fw := fc.C.Flags["forwards"]; fw != "" {
+		st.ghost["fwd@count"] = Val{T: "0", S: SInt}
+		for i := 0; i < fi.Sig.Results().Len(); i++ {
+			rt := fi.Sig.Results().At(i).Type()
+			s := fc.U.SortOf(rt)
+			st.ghost[fmt.Sprintf("fwd@r%d", i)] = Val{T: fc.U.Fresh("fwd0", s), S: s, GoT: rt}
+		}
+	}
 	fc.entry = st.clone()
 	// requires
 	var reqs []string
@@ -604,6 +621,17 @@ func (fc *FCtx) run() {
 			t := fc.specBool(en.Expr, env)
 			name := fmt.Sprintf("post#%d@exit%d", i, r.ord)
 			fc.obligeNamed(r.st, name, "post", t, "ensures "+en.Src, r.pos)
+		}
+		if fw := fc.C.Flags["forwards"]; fw != "" {
+			goal := fmt.Sprintf("(= %s 1)", r.st.ghost["fwd@count"].T)
+			for i, v := range r.vals {
+				if g, ok := r.st.ghost[fmt.Sprintf("fwd@r%d", i)]; ok && g.S == v.S {
+					goal = fmt.Sprintf("(and %s (= %s %s))", goal, v.T, g.T)
+				} else {
+					goal = "false"
+				}
+			}
+			fc.obligeNamed(r.st, fmt.Sprintf("forwards@exit%d", r.ord), "post", goal, "forwards "+fw+": returns exactly the results of its one call of "+fw, r.pos)
 		}
 		// frame: ghost state not named in `modifies` is unchanged
 		for _, g := range fc.ghostNames(r.st) {
